@@ -1,6 +1,7 @@
 package small
 
 import (
+	"verif/internal/effects"
 	"verif/internal/norm"
 	"fmt"
 	"go/ast"
@@ -259,7 +260,11 @@ func OrderDomainIn(p *load.Program, rel string) *report.RuleResult {
 	res.Count("functions", len(methods))
 
 	// version.New: structural provenance
-	checkVersionNew(p, pk, res)
+	if w, err := effects.NewWorld(p); err != nil {
+		res.Unknown("New", "-", "", "undecided:ssa: "+err.Error())
+	} else {
+		effects.VersionNew(w, rel, res)
+	}
 	// no writes to package-level vars / version fields outside New
 	for _, fd := range load.FuncDecls(pk) {
 		ast.Inspect(fd.Body, func(x ast.Node) bool {
